@@ -144,7 +144,8 @@ class C12(Prop):
     rule = ("random rooted trees of 2..7 nodes (random child order, dims in {1,2,3}, dimension-1 nodes carry only the identity; all ordered "
             "shapes <= 5 nodes in thorough), Hamiltonians with 1..8 terms with pairwise distinct operator strings, at most d^2-1 non-identity "
             "labels per site of dimension d (so distinct strings are linearly independent for generic operator values), 45% with expanded "
-            "products of local sums (rank-deficient coefficient matrices, where elimination beats the plain vertex cover), coefficient mode "
+            "products of local sums (rank-deficient coefficient matrices, where elimination beats the plain vertex cover), 20% random symbolic "
+            "coefficient matrices across one edge (one term per entry), 15% operator names with ambiguous concatenations, coefficient mode "
             "unit/frac/sym/symshared; method SGE. one case per (tree, Hamiltonian); non-trivial = some edge of rank >= 2; distinct by content")
     clauses = [
         ("F", "min_cert_sound: an accepted certificate (row/column indices of an r x r minor of Gamma and its inverse) excludes every factorisation "
@@ -194,12 +195,19 @@ class C12(Prop):
             coefmode = rng.choice(["unit", "unit", "frac", "sym", "sym", "symshared"])
             nterms = 1 if g % 10 == 3 else rng.choice([1, 2, 3, 3, 4, 4, 5, 6, 7, 8])
             product = rng.random() < 0.45
+            amb = rng.random() < 0.15         # operator names with ambiguous concatenations (n, nn, nnn) on the dimension-2 sites
+            if amb:
+                phys = [min(d, 2) for d in phys]
+            gamma = rng.random() < 0.2        # random symbolic coefficient matrix across one edge (see c01.gamma_terms)
+            if gamma:
+                coefmode = "sym"
             terms = random_terms(rng, phys, nterms, coefmode, "none", rng.choice([1, 2, 3]), distinct_strings=True, physical_only=True,
-                                 product=product)
+                                 product=product, amb=(ch if amb else None), gamma_on=(ch if gamma else None))
             if not terms:
                 continue
+            struct = ("gamma+product" if product else "gamma") if gamma else ("product" if product else "random")
             cases.append({"kind": "ham", "method": "SGE", "children": ch, "phys": phys, "terms": terms, "nlabels": 3, "coefmode": coefmode,
-                          "dupmode": "none", "struct": "product" if product else "random", "seed": rng.randrange(10 ** 6), "group": g})
+                          "dupmode": "none", "struct": struct, "labelset": "amb" if amb else "std", "seed": rng.randrange(10 ** 6), "group": g})
         # "row-symbol" family: Gamma = diag(g_i) * A across one edge, with A a 0/1 matrix whose COLUMNS are
         # linearly dependent in a way that is not plain parallelism (each row carries its own symbol, so row
         # elimination cannot see it): the minimal bond needs column additions that create new symbolic entries
@@ -240,6 +248,7 @@ class C12(Prop):
             c[f"terms:{len(x['terms'])}"] += 1
             c["coef:" + x["coefmode"]] += 1
             c["struct:" + x.get("struct", "random")] += 1
+            c["labels:" + x.get("labelset", "std")] += 1
             c["has_dim1_node"] += 1 in x["phys"]
             for e in range(1, len(x["children"])):
                 c[f"edge_rank:{certificate(x, e)['r']}"] += 1
@@ -374,6 +383,16 @@ class C12(Prop):
         return None
 
     def classify(self, case, what, known):
+        """C12-symbolic-suboptimal (proposed): an exact SGE TTNO whose bond on some edge EXCEEDS the rank, for a Hamiltonian with
+        at least two different coefficient symbols (counting "1"): the symbolic elimination cannot combine rows/columns that carry
+        different symbols.  A bond below the rank, an inexact operator or an exception is never attributed."""
+        kid = "C12-symbolic-suboptimal"
+        if kid not in known or len({t[2] for t in case["terms"]}) < 2:
+            return None
+        import re
+        m = re.search(r"bond dimension (\d+), (?:operator Schmidt rank|certified rank of Gamma_e is) (\d+)", what)
+        if m and int(m.group(1)) > int(m.group(2)):
+            return kid
         return None
 
     def sample_repr(self, case):
